@@ -24,7 +24,7 @@ RULE = ("products of <= 4 objects drawn from ERI, Coulomb integrals, "
         "targets are the Einstein targets or an explicit subset of <= 4 "
         "indices; every spin string of the targets is run.  Fixed inputs: "
         "all single objects, single ERIs and their 2nd/3rd powers in all six space blocks and 16 spin patterns (expand_antisym_eri), ERI powers through the whole pipeline for every target spin string, the definitions of all registered "
-        "intermediates, MP energies, the four inputs of the repaired defects and the seeded-defect example W_bdef (corpus).  _has_valid_combination: random lists of 2-5 objects with 1-4 candidate maps over 1-3 of 6 indices, 70% with a hidden solution behind decoys; brute-force stream: products of 3-5 tabled objects, 2-4 targets.  A case is "
+        "intermediates, MP energies, the four inputs of the repaired defects and the seeded-defect example W_bdef (corpus).  Multi-term stream: sums of 2-4 terms with the same provided targets (delta products, single tensors, contractions, generated products) for every target spin string.  _has_valid_combination: random lists of 2-5 objects with 1-4 candidate maps over 1-3 of 6 indices, 70% with a hidden solution behind decoys; brute-force stream: products of 3-5 tabled objects, 2-4 targets.  A case is "
         "non-trivial if the term has at least one contracted index or at "
         "least two objects with a block table; distinct = distinct "
         "(term, targets, spins, mode) text")
@@ -966,6 +966,182 @@ def stage_hvc(ctx, quick):
                               "found_after_backtracking": n_back}
 
 
+def multiterm_exprs(ctx, quick):
+    """sums of 2-4 terms with the same (provided) targets whose terms allow
+    different spin blocks: delta products, single tensors, contractions,
+    generated products containing every target"""
+    rng = ctx.rng
+    i, j, k, l = get_symbols("ijkl")
+    a, b, c, d = get_symbols("abcd")
+    V = lambda u, lo: AntiSymmetricTensor("V", u, lo, 1)       # noqa
+    t1 = lambda u, lo: Amplitude("t1", u, lo)                  # noqa
+    t2 = lambda u, lo: Amplitude("t2", u, lo)                  # noqa
+    f = lambda x, y: AntiSymmetricTensor("f", (x,), (y,), 1)   # noqa
+    p2 = lambda x, y: AntiSymmetricTensor("p2", (x,), (y,), 1)  # noqa
+    dl = KroneckerDelta
+    pools = {
+        (i, j, a, b): [
+            dl(i, j) * dl(a, b), t1((a, b), (i, j)),
+            t1((a, c), (i, k)) * t1((b, c), (j, k)), V((a, b), (i, j)),
+            V((i, a), (j, b)), dl(i, j) * f(a, b), dl(a, b) * f(i, j),
+            t2((a,), (i,)) * t2((b,), (j,)),
+            V((a, k), (i, c)) * t1((b, c), (j, k)),
+            p2(i, j) * dl(a, b), dl(i, j) * p2(a, b),
+            V((k, l), (c, d)) * t1((a, c), (i, k)) * t1((b, d), (j, l)),
+            t1((a, b), (k, l)) * V((k, l), (i, j)),
+            t2((a,), (j,)) * t2((b,), (i,)), dl(i, j) * t2((a,), (k,)) *
+            t2((b,), (k,))],
+        (i, a): [
+            t2((a,), (i,)), f(i, a), t1((a, b), (i, j)) * t2((b,), (j,)),
+            V((j, a), (b, c)) * t1((b, c), (i, j)),
+            V((j, k), (i, b)) * t1((a, b), (j, k)),
+            AntiSymmetricTensor("p3", (i,), (a,), 1),
+            t1((a, b), (i, j)) * f(j, b), V((i, j), (a, b)) * t2((b,), (j,))],
+        (i, j): [
+            dl(i, j), f(i, j), p2(i, j),
+            t1((a, b), (i, k)) * t1((a, b), (j, k)), V((i, k), (j, k)),
+            t2((a,), (i,)) * t2((a,), (j,)), dl(i, j) * V((k, l), (k, l)),
+            V((i, a), (j, b)) * p2(a, b)],
+        (a, b): [
+            dl(a, b), f(a, b), p2(a, b),
+            t1((a, c), (i, j)) * t1((b, c), (i, j)), V((a, i), (b, i)),
+            t2((a,), (i,)) * t2((b,), (i,))],
+    }
+    out = []
+    # corpus: the example of the seeded defect (flag term_vanishes not reset)
+    out.append(("corpus:delta*delta+t+tt", dl(i, j) * dl(a, b)
+                + t1((a, b), (i, j)) + t1((a, c), (i, k)) * t1((b, c), (j, k)),
+                [i, j, a, b]))
+    out.append(("corpus:t+delta*delta", t1((a, b), (i, j))
+                + dl(i, j) * dl(a, b), [i, j, a, b]))
+    voc = U.vocab(rng)
+    n = 16 if quick else 120
+    for num in range(n):
+        tg = rng.choice(list(pools) + [(i, j, a, b)] * 2)
+        cand = list(pools[tg])
+        # generated products that carry every target
+        for _ in range(6):
+            sym, _k = U.random_product(rng, voc, rng.choice([1, 2, 3]),
+                                       kinds=["V", "t2", "t1", "delta", "f",
+                                              "itmd", "XY", "d"])
+            if sym != 0 and set(tg) <= sym.free_symbols and \
+                    not sym.atoms(Pow):
+                cand.append(sym)
+        terms = rng.sample(cand, rng.randint(2, min(4, len(cand))))
+        sym = Add(*[Rational(rng.choice([1, -1, 2, 1, -1, 3]),
+                             rng.choice([1, 2, 4, 1])) * t for t in terms])
+        tgl = list(tg)
+        rng.shuffle(tgl)
+        out.append((f"multi{num}", sym, tgl))
+    return out
+
+
+def stage_multiterm(ctx, tabs, quick):
+    """F: integrate_spin / transform_to_spatial_orbitals on sums of terms that
+    allow different spin blocks, for every target spin string: the
+    contributions before the final simplify == model integrate_expr (sum of
+    the per-term results), numeric value of the result"""
+    itab_def = f"Definition ITAB : itable := {U.coq_itab(tabs)}.\n"
+    coq_cases, rows = [], []
+    for label, sym, tg in multiterm_exprs(ctx, quick):
+        cs = Case(label, sym, tg, True)
+        try:
+            E = cs.expr()
+        except Exception as ex:     # noqa
+            ctx.note(f"{label}: Expr() raised {ex!r}")
+            continue
+        if E.sympy == 0 or len(E.terms) < 2:
+            continue
+        for spins in spin_strings(len(tg)):
+            ob = U.observe_integrate(cs.expr(), cs.names, spins)
+            if ob.exc is not None and ob.exc_in_simplify:
+                k = "simplify-raises(TODO in source: polynoms)"
+                ctx.dist[k] = ctx.dist.get(k, 0) + 1
+                continue
+            ictx = adcio.IdxCtx()
+            try:
+                p_in = adcio.conv_expr(E.sympy, ictx)
+                p_pre = adcio.conv_expr(Add(*ob.pre), ictx)
+            except adcio.Unsupported as ex:
+                ctx.note(f"{label}: unsupported {ex}")
+                break
+            tgc = [ictx.conv(x) for x in cs.targets]
+            tm = U.coq_tmap(zip(tgc, spins))
+            allidx = adcio.coq_list(x.coq() for x in all_idx_list([p_pre]))
+            coq_cases.append(
+                f"match integrate_expr ITAB {tm} {adcio.coq_expr(p_in)} with "
+                f"| Ok e1 => Ok (check_equiv {allidx} [] [] e1 "
+                f"{adcio.coq_expr(p_pre)}, List.length e1) | Err c => Err c end")
+            rows.append((cs, spins, ob, len(E.terms)))
+    vals, _ = ctx.coq_eval("multiterm", coq_cases, header=U.COQ_HEADER,
+                           defs=itab_def, shard=40)
+    for (cs, spins, ob, nterms), v in zip(rows, vals):
+        label = f"{cs.label}[{spins}]"
+        v = (v or "").replace(" ", "")
+        if ob.exc is not None:
+            same = v.startswith("Err") and \
+                U.ERR_CLASS[int(v[3:].strip("()"))] == ob.exc
+        else:
+            same = v.startswith("Ok(true,")
+        n_sub = len(ob.subs)
+        ctx.case(key=(str(cs.sym), cs.names, spins, "multiterm"),
+                 nontrivial=True, kind=f"multiterm:terms{nterms}:"
+                                       f"tg{len(spins)}",
+                 sample={"label": label, "expr": str(cs.sym)[:240],
+                         "targets": cs.names, "spins": spins,
+                         "substituted_terms": n_sub,
+                         "result": str(getattr(ob.result, "sympy",
+                                               ob.exc))[:200]})
+        bad = None
+        if ob.exc is None:
+            check_targets(ctx, cs, spins, ob.result, spins, "integrate_spin")
+            bad = value_check(ctx, cs, spins, ob.result, tabs)
+            ctx.obligation(f"value of integrate_spin {label}", bad is None,
+                           str(bad))
+        if not ctx.obligation(f"integrate_spin contributions == model "
+                              f"integrate_expr {label}", same,
+                              f"model {v} python exc {ob.exc}") \
+                or bad is not None:
+            ctx.violation(
+                f"C15:multiterm:{cs.label}:{spins}",
+                "integrate_spin on a sum of terms differs from the model "
+                "integrate_expr (sum of the per-term enumerations)"
+                + (" and in value from the spin-orbital expression on the "
+                   "requested block" if bad else ""),
+                {"expr": str(cs.sym), "targets": cs.names, "spins": spins,
+                 "python_result": str(getattr(ob.result, "sympy", ob.exc)),
+                 "model_accepts": v, "difference": bad,
+                 "theorem": "C15_integrate_value (per term)"},
+                bad is not None)
+            continue
+        if ob.exc is not None:
+            continue
+        for restricted, expand in ((False, True), (True, True)):
+            mode = f"restricted={restricted},expand_eri={expand}"
+            try:
+                out = so.transform_to_spatial_orbitals(
+                    cs.expr(), cs.names, spins, restricted=restricted,
+                    expand_eri=expand)
+            except Exception as ex:     # noqa
+                ctx.note(f"{label} {mode}: {ex!r}"[:200])
+                continue
+            bad = value_check(ctx, cs, spins, out, tabs,
+                              restricted=restricted, eri_from_coulomb=expand)
+            ctx.case(key=(str(cs.sym), cs.names, spins, mode, "multiterm"),
+                     kind=f"multiterm:{mode}")
+            if not ctx.obligation(f"value of transform {mode} {label}",
+                                  bad is None, str(bad)):
+                ctx.violation(
+                    f"C15:multiterm-transform:{cs.label}:{spins}:{mode}",
+                    "transform_to_spatial_orbitals on a sum of terms differs "
+                    "in value from the spin-orbital expression on the "
+                    "requested block",
+                    {"expr": str(cs.sym), "targets": cs.names,
+                     "spins": spins, "mode": mode,
+                     "python": str(out.sympy)[:1000], "difference": bad},
+                    True)
+
+
 def split_pair(v):
     """'(x, y)' printed by Coq -> (x, y) for res values"""
     v = v.strip()
@@ -1142,6 +1318,7 @@ def run(ctx):
     stage_integrate(ctx, tabs, cases)
     stage_expand(ctx, tabs)
     stage_expr_blocks(ctx, tabs, quick)
+    stage_multiterm(ctx, tabs, quick)
     stage_blocks_bruteforce(ctx, tabs, quick)
     stage_hvc(ctx, quick)
     stage_pipeline(ctx, tabs, cases[:(60 if quick else 300)], quick)
